@@ -17,6 +17,8 @@ from asyncio import CancelledError
 from steploop import StepLoop, handle_owner, running
 
 METHS = ["apply", "map", "starmap", "doublestarmap"]
+# a pool name with characters that are special to %-formatting, str.format and regular expressions
+POOL_NAME = "po%ol {0} 100%s (x) [y]"
 
 
 class HarnessError(Exception):
@@ -124,9 +126,9 @@ class PoolRun:
                 self.work, args=args, kwargs=None,
                 end_callback=self._make_cb("e", cfg["ecb"]),
                 cancel_callback=self._make_cb("c", cfg["ccb"]),
-                pool_size=psize, name="pool")
+                pool_size=psize, name=POOL_NAME)
         else:
-            self.pool = poolmod.TaskPool(pool_size=psize, name="pool")
+            self.pool = poolmod.TaskPool(pool_size=psize, name=POOL_NAME)
 
     def close(self):
         self.ctxm.__exit__()
@@ -222,6 +224,9 @@ class PoolRun:
             elif len(args) == 3 and args[0] == "apply":
                 ok = True
                 req, k, w = args[1], None, args[2]
+            elif len(args) == 5 and args[0] == "@":
+                ok = True
+                req, k, w = int(args[1] + args[2]), None, args[3] + args[4]
             else:
                 ok, req, k, w = False, -1, 0, "rp"
             if k is None:   # apply / start: the invocation index is the call count
@@ -297,6 +302,29 @@ class PoolRun:
         return "r"
 
     def _make_cb(self, kind, spec):
+        """A callback of the requested behaviour, in one of several *forms* (by turns): a plain
+        function / coroutine function, a functools.partial around it, a bound method."""
+        f = self._make_cb_fn(kind, spec)
+        if f is None:
+            return None
+        self.n_cbs = getattr(self, "n_cbs", 0) + 1
+        form = self.n_cbs % 3
+        if form == 1:
+            import functools
+            return functools.partial(f)
+        if form == 2:
+            if inspect.iscoroutinefunction(f):
+                class Holder:
+                    async def call(self_, tid):
+                        return await f(tid)
+            else:
+                class Holder:
+                    def call(self_, tid):
+                        return f(tid)
+            return Holder().call
+        return f
+
+    def _make_cb_fn(self, kind, spec):
         if spec == "n":
             return None
         up = "ec" if kind == "e" else "cc"
@@ -326,6 +354,31 @@ class PoolRun:
             if raises:
                 raise HarnessError(tid, kind)
         return acb
+
+    def _arg_iterable(self, req, stars, els):
+        """The argument iterable of a map request: a generator, or (every other request) a sized,
+        re-iterable container whose iteration is instrumented in the same way."""
+        if req % 2 == 0:
+            return self._arg_iter(req, stars, els)
+        run = self
+
+        class SizedArgs:
+            def __len__(self):
+                return len(els)
+
+            def __iter__(self):
+                return run._arg_iter(req, stars, els)
+
+            def __getitem__(self, i):      # some "fast paths" index into sequences
+                return list(run._arg_iter_plain(req, stars, els))[i]
+        return SizedArgs()
+
+    def _arg_iter_plain(self, req, stars, els):
+        for k, e in enumerate(els):
+            bad, w = e[0] == "1", e[1:]
+            yield (5 if stars else Bad()) if bad else (
+                (req, k, w, 0) if stars == 0 else (req, k, w, 1) if stars == 1
+                else {"req": req, "k": k, "w": w, "shape": 2})
 
     def _arg_iter(self, req, stars, els):
         k = 0
@@ -511,7 +564,10 @@ class PoolRun:
             req = self.n_req
             bad_at(kv["bad"], 0)      # syntax check
             self.badpat[req] = kv["bad"]
-            args = ("apply", req, kv["w"])
+            # the shape of `args` varies: a tuple, a list, or (requests below 100) a *string* -
+            # func(*"@07sp") is func("@", "0", "7", "s", "p"); all of them are legal iterables
+            args = [("apply", req, kv["w"]), ["apply", req, kv["w"]],
+                    f"@{req:02d}{kv['w']}" if req < 100 and len(kv["w"]) == 2 else ("apply", req, kv["w"])][req % 3]
             self._spawn_result(self._call(
                 p.apply, func, args, None, int(kv["num"]), gname_to_str(g) if g else None,
                 self._make_cb("e", kv["ecb"]), self._make_cb("c", kv["ccb"])))
@@ -524,7 +580,7 @@ class PoolRun:
             els = [] if kv["els"] == "-" else kv["els"].split(",")
             meth = [p.map, p.starmap, p.doublestarmap][stars]
             self._spawn_result(self._call(
-                meth, func, self._arg_iter(self.n_req, stars, els), int(kv["nc"]),
+                meth, func, self._arg_iterable(self.n_req, stars, els), int(kv["nc"]),
                 gname_to_str(g) if g else None,
                 self._make_cb("e", kv["ecb"]), self._make_cb("c", kv["ccb"])))
         elif op == "start":
